@@ -216,6 +216,15 @@ class StubSim(mosaik_api_v3.Simulator):
         elif op == "get":
             _, src_full, attr = act
             self.ctx.ev("AG", self.sid, k, time, src_full, attr)
+            f = self.spec.get("fault")
+            if f and f["req"] == "async" and f["k"] == k:
+                # the fault hits while this simulator's own request to mosaik is outstanding:
+                # the request goes out, the reply is never awaited
+                import asyncio
+                t = asyncio.ensure_future(self.mosaik.get_data({src_full: [attr]}))
+                yield asyncio.sleep(0)
+                t.cancel()
+                yield from self._fault_point("async", k)
             try:
                 res = yield self.mosaik.get_data({src_full: [attr]})
                 self.ctx.ev("AR", self.sid, k, "get", "ok", json.dumps(res, sort_keys=True))
